@@ -9,11 +9,13 @@ ops (CERT = 12-token descriptor, Driver/CertArgs.lean):
          SignWith with a signer lambda that returns <sig>; rt = same | fields | fp | err:<kind> (decode of the
          encoding compared with the issued certificate: fields, then fingerprint)
   norm <sig hex>  -> <IsNormalized 0|1|err> <Normalize hex|err> <Swap hex|err>
-  tamper <ver> <form std|hs> <orig hex> <altered hex> <ca ver> <ca hex> <now ns> <sig 0|1>
+  copy <ver> <hex>  -> same | differs:<what> | undecodable <err:kind>     (Copy() of the decoded certificate)
+  tamper <ver> <form std|hs> <orig hex> <altered hex> <ca ver> <ca hex> <now ns> <sig 0|1> <block 0|1>
       -> op-inconsistent | undecodable <err:kind> | <ok|err:kind> <same|changed> <sigsame|twin|othersig>
          the original and the CA must decode; the altered encoding is decoded (hs: Recombine with the original's key
          and curve) and verified against a pool holding the CA; `sig` = CheckSignature of the altered certificate
-         under the CA key (observed); identity = everything but the signature.
+         under the CA key (observed); identity = everything but the signature; block = the original's
+         fingerprint is blocklisted first.
 -/
 import Nebula.Driver.CertArgs
 import Nebula.Driver.Certsign
@@ -86,6 +88,7 @@ def rtClass (t : Cert) : String :=
   if t.version == 2 && t.name.isEmpty then "v2-empty-name"
   else if t.version == 2 && t.name.length > Gen.cert_MaxNameLength then "v2-name-too-long"
   else if t.version == 2 && t.groups.any (·.isEmpty) then "v2-empty-group"
+  else if t.version == 2 && t.groups.any (·.length > Gen.cert_MaxNameLength) then "v2-long-group"
   else if t.notBefore % 1000000000 != 0 || t.notAfter % 1000000000 != 0 then "subsecond-validity"
   else "roundtrip"
 
@@ -165,37 +168,58 @@ def step (s : Unit) (args : List String) (impl : String) : Unit × Out :=
       let n := match P256.isNormalized b with | some true => "1" | some false => "0" | none => "err"
       let m := s!"{n} {o (P256.normalize b)} {o (P256.swap b)}"
       (s, { model := m, verdict := expect "p256-normalize" impl m, tag := "norm:" ++ n })
-  | ["tamper", ver, form, orig, alt, caver, cahex, now, sig] =>
+  | ["tamper", ver, form, orig, alt, caver, cahex, now, sig, block] =>
     match natArg ver, hexToBytes orig, hexToBytes alt, natArg caver, hexToBytes cahex, intArg now with
     | some ver, some orig, some alt, some caver, some cab, some now =>
       match decode ver false 0 none (some orig), decode caver false 0 none (some cab) with
-      | .ok (c0, _), .ok (ca, _) =>
+      | .ok (c0, rd0), .ok (ca, _) =>
         let r := if form == "hs" then decode ver true c0.curve (some c0.publicKey) (some alt)
                  else decode ver false 0 none (some alt)
-        let m := match r with
-          | .error e => "undecodable " ++ e
-          | .ok (c1, _) =>
+        let blocked := block == "1"
+        -- (model answer, the altered certificate is the original / the original's twin)
+        let (m, isOrig, isTwin) := match r with
+          | .error e => ("undecodable " ++ e, false, false)
+          | .ok (c1, rd1) =>
             let same := { c1 with signature := [] } == { c0 with signature := [] }
             let sigrel := if c1.signature == c0.signature then "sigsame"
               else if P256.swap c0.signature == some c1.signature then "twin" else "othersig"
+            -- same fingerprint preimage as the original / as the original's other signature form
+            let isOrig := same && rd1 == rd0 && sigrel == "sigsame"
+            let isTwin := same && rd1 == rd0 && sigrel == "twin"
             let K : Crypto :=
-              { fingerprint := fun x => if x.isCA then some c0.issuer else some "altered",
-                altFingerprint := fun _ => some "", checkSig := fun x _ => if x.isCA then true else sig == "1" }
+              { fingerprint := fun x => if x.isCA then some c0.issuer else (if isOrig then some "orig" else some "altered"),
+                altFingerprint := fun _ => if isTwin then some "orig" else some "",
+                checkSig := fun x _ => if x.isCA then true else sig == "1" }
             let p := (({} : Pool).addCA K now ca).1
+            let p := if blocked then p.blocklist "orig" else p
             let v := match p.verifyCertificate K now c1 with
               | .ok _ => "ok"
               | .error e => Certverify.verrStr e
-            s!"{v} {if same then "same" else "changed"} {sigrel}"
+            (s!"{v} {if same then "same" else "changed"} {sigrel}", isOrig, isTwin)
         -- property (C02): an altered encoding that still decodes is rejected unless the identity is unchanged,
-        -- and the only other accepted signature for unchanged content is the P-256 twin
+        -- the only other accepted signature for unchanged content is the P-256 twin, and blocklisting either
+        -- twin's fingerprint rejects both
         let verdict :=
           if impl.startsWith "ok changed" then "bad tamper-accepted-identity-changed"
           else if impl.startsWith "ok same othersig" then "bad second-signature-accepted"
+          else if blocked && impl.startsWith "ok" && isTwin then "bad twin-of-blocklisted-accepted"
+          else if blocked && impl.startsWith "ok" && isOrig then "bad tamper-blocklisted-accepted"
           else "ok"
-        let tag := if m.startsWith "undecodable" then "tamper:undecodable" else "tamper:" ++ m
+        let tag := if m.startsWith "undecodable" then "tamper:undecodable"
+          else "tamper:" ++ m ++ (if blocked then " blocked" else "")
         (s, { model := m, verdict := verdict, tag := tag })
       | _, _ => (s, { model := "op-inconsistent", verdict := "ok", tag := "triv:op-inconsistent" })
     | _, _, _, _, _, _ => (s, badOp)
+  | ["copy", ver, hex] =>
+    match natArg ver, hexToBytes hex with
+    | some ver, some b =>
+      -- `Certificate.Copy()` of a decoded certificate: every accessor, every encoding and the fingerprint equal
+      let m := match decode ver false 0 none (some b) with
+        | .ok _ => "same"
+        | .error e => "undecodable " ++ e
+      let verdict := if impl.startsWith "differs" then s!"bad copy-differs {impl}" else "ok"
+      (s, { model := m, verdict := verdict, tag := if m == "same" then "copy:same" else "triv:copy-undecodable" })
+    | _, _ => (s, badOp)
   | _ => (s, badOp)
 
 def main : IO Unit := runEngine () step
